@@ -160,8 +160,23 @@ def gen_full(rng, size="small", force=None):
                 al["duration"] = 120
             if F["capacity"] and p(0.4) and not any(isinstance(s.get("quantity"), dict) for s in stops):
                 al["quantity"] = -1
+            # alternates carry the temporal fields of a stop as well - some of them only
+            if F["windows"] and p(0.5):
+                a0 = T0 + 60 * rng.randint(0, 90)
+                al["start_time_window"] = [rfc(a0), rfc(a0 + rng.choice([600, 1800, 3600]))]
+                if p(0.4):
+                    al["max_wait"] = rng.choice([0, 300, 1800])
+            if F["targets"] and p(0.4):
+                al["target_arrival_time"] = rfc(T0 + 60 * rng.randint(0, 120))
+                al["early_arrival_time_penalty"] = rng.choice([0.5, 1.0])
+                al["late_arrival_time_penalty"] = rng.choice([0.5, 2.0])
+            if F["custom"] and p(0.5):
+                al["custom_data"] = {"alt": a}
             alts.append(al)
         inp["alternate_stops"] = alts
+        if any("start_time_window" in a for a in alts):
+            for ve in vehicles:
+                ve.setdefault("start_time", rfc(T0 + rng.choice([0, 600, 3600])))
         for ve in vehicles:
             if p(0.6):
                 ve["alternate_stops"] = rng.sample([a["id"] for a in alts], rng.randint(1, nalt))
